@@ -10,6 +10,26 @@ CHECKS = {
    text="TLC checks on the specification that Decode(Encode(v)) is the wire image of v for every frame shape (4 data MTypes x 16 FCtrl x FOpts length 0..15 x FPort absent/0/1/255 x FRMPayload lengths x join/rejoin/join-accept/CFList/proprietary shapes); each shape and seeded random frame values (valid and deliberately invalid) are run through MarshalBinary/MarshalText/UnmarshalBinary/UnmarshalText/Decode*ToMACCommands/Encrypt+DecryptJoinAccept and every recorded event is validated against the specification's Encode/WireImage/SpecValid.",
    note="Trusted: TLC, Frame.tla/MACCommands.tla transcription of LoRaWAN 1.1 sec. 4-6, projection tables. Invalid values that the encoder accepts are DON'T-CARE.",
    ref="3/C01"),
+ "C02": dict(
+   technique="LoRaWAN MIC definitions in TLA+ (CryptoGen) instantiated symbolically (TLC: which inputs are authenticated) and with in-TLA+ AES-CMAC (TLC validates every recorded Set*/Validate* call)",
+   text="TLC checks on the symbolic instance, for all 8192 parameter records and all single-coordinate variations, that two MIC terms are equal iff exactly the inputs the property lists are equal (ConfFCnt only with ACK on 1.1 and only mod 2^16, full 32-bit FCnt, txDR/txCh/SNwkSIntKey only on 1.1 uplinks). Seeded frames (FOpts/FPort/FRMPayload up to 242 bytes) are MIC'ed by the real code and re-validated under 14 single-parameter perturbations; TLC recomputes every MIC with AES-CMAC written in TLA+ from RFC 4493/FIPS-197 and demands mic = spec value and ok = (carried = spec value).",
+   note="Trusted: TLC, in-TLA+ AES/CMAC (published vectors re-checked each run), Frame.tla for the authenticated bytes, projection. Keys/counters are sampled.",
+   ref="3/C02"),
+ "C03": dict(
+   technique="keystream/FOpts-block definitions in TLA+ with in-TLA+ AES; TLC design check of involution/length/variant rule; TLC validation of recorded function and method calls incl. error paths",
+   text="TLC checks on the concrete specification (AES in TLA+) length preservation, involution, pairwise-distinct keystream blocks and the AFCntDown variant table; seeded calls of EncryptFRMPayload/EncryptFOpts (functions) and the four PHYPayload methods (also with FOpts > 15 bytes or unmarshalable commands) are recorded with the frame before/after and TLC demands post = Transform(pre) whenever the call reports success.",
+   note="Trusted: TLC, in-TLA+ AES, Frame.tla, projection. Keys/addresses/counters sampled; lengths 0..255 incl. every block boundary.",
+   ref="3/C03"),
+ "C04": dict(
+   technique="join MIC / join-accept encryption definitions in TLA+; symbolic TLC check of the OptNeg binding; TLC validation of recorded Set/Validate/Encrypt/Decrypt calls with in-TLA+ AES-CMAC and AES inverse cipher",
+   text="TLC checks symbolically which fields enter the 1.0 and OptNeg join-accept MIC (and their byte order) and concretely that decrypt inverts encrypt for 16/32-byte inputs; seeded join-request, rejoin 0/1/2 and join-accept frames (CFList absent/channels/masks, OptNeg both) are MIC'ed, validated under perturbations, encrypted and decrypted by the real code and TLC recomputes MIC, ciphertext (AES inverse cipher in TLA+) and the AES-encrypt relation for every event.",
+   note="Trusted: TLC, in-TLA+ AES/AES^-1/CMAC, Frame.tla, projection.",
+   ref="3/C04"),
+ "C05": dict(
+   technique="SecureLink TLA+ state machine (symbolic crypto) explored exhaustively by TLC over all call orders x deviations; maximal behaviours replayed on real PHYPayload values; recorded calls validated with concrete in-TLA+ crypto; all single-bit corruptions",
+   text="TLC explores 260k states of the sender|channel|receiver model: every order of the sender calls and of the receiver calls, both directions and versions, ACK, four content layouts, 14 deviations (mismatched key/counter half/MIC parameter, tampered wire component) and proves Recover/Reject/Residue on the model; a seeded sample of the ~93k maximal behaviours is executed call by call on real frames with concrete keys, each call validated by TLC (transform, MIC value, wire format) and the outcome compared with the model's; every single-bit corruption of serialised frames is checked for exact MIC agreement.",
+   note="Trusted: TLC, in-TLA+ AES/CMAC, Frame.tla, projection. The symbolic verdict is compared only for receivers that validate before decrypting; known finding: MHDR RFU bits are not authenticated.",
+   ref="3/C05"),
  "C06": dict(
    technique="independent table-driven TLA+ wire-format model; TLC-enumerated values and bytes (exhaustive for <=2-byte payloads) executed on the real encoders/decoders; TLC trace validation",
    text="The MAC-command layouts (field order, widths, kinds, RFU rows) and the frame/join/CFList formats are TLA+ tables written from the LoRaWAN text. TLC enumerates all values of <=1-byte (quick) / <=2-byte (thorough) payloads and boundary palettes of longer ones; each is encoded by the real library and each byte string is decoded by it; results must equal the specification's Encode/DecodeBits (RFU ignored). Frame headers, join payloads and CFLists are checked through the FrameGen shapes and byte shapes.",
